@@ -12,6 +12,10 @@ package redisemu
 // contract of the full-iteration guarantee.
 
 //@ ghost scanStarted bool
+// what the wrapper handed to the step
+//@ ghost gScanPattern string
+//@ ghost gScanCursor0 uint32
+//@ ghost gScanCount int
 //@ ghost scanFirst uint32
 //@ ghost scanNext uint32
 //@ ghost scanCursor uint32
@@ -30,7 +34,11 @@ package redisemu
 //@ requires [C17,C13] count.positive: count >= 1
 //@ ensures [C17] progress: scanStarted
 //@ loop "for count > 0" invariant [C17] started.or.untouched: scanStarted || count == old(count)
-//@ modifies heap ghost.lookupAbsent ghost.scanStarted ghost.scanFirst ghost.scanNext ghost.scanCursor
+//@ modifies heap ghost.lookupAbsent ghost.scanStarted ghost.scanFirst ghost.scanNext ghost.scanCursor ghost.gScanPattern ghost.gScanCursor0 ghost.gScanCount
+//@ ghostentry gScanPattern = pattern
+//@ ghostentry gScanCursor0 = cursor
+//@ ghostentry gScanCount = count
+//@ ensures [C17] args.recorded: gScanPattern == pattern && gScanCursor0 == old(cursor) && gScanCount == old(count)
 // C17: the filter must not touch the table being walked (a removal or
 // insertion may rehash it mid-iteration)
 //@ callback isMatch
